@@ -58,15 +58,28 @@ def policyOf : String → Option (Policy × Bool)
   | "object!" => some (.object, false) | "none!" => some (.nowait, false)
   | _ => none
 
+/-- one step of the line protocol: one action, or several joined by `+` that the harness performs
+back to back inside one coroutine (e.g. adding tasks that have already finished and then calling
+`join()` without yielding in between); the observations are concatenated, one record is printed -/
+def parseStep (s : String) : Option (List Action) :=
+  ((s.splitOn "+").map (·.trimAscii.toString)).mapM parseAction
+
+def reactAll (g : G) : List Action → G × List Obs
+  | [] => (g, [])
+  | a :: rest =>
+    let r1 := react g a
+    let r2 := reactAll r1.1 rest
+    (r2.1, r1.2 ++ r2.2)
+
 def handle (line : String) : String :=
   match (line.splitOn ";").map (·.trimAscii.toString) with
   | pol :: acts =>
-    match policyOf pol, acts.mapM parseAction with
-    | some p, some as =>
-      let rec go (g : G) : List Action → List String
+    match policyOf pol, acts.mapM parseStep with
+    | some p, some steps =>
+      let rec go (g : G) : List (List Action) → List String
         | [] => []
-        | a :: rest => let (g1, o) := react g a; record g1 o :: go g1 rest
-      String.intercalate " ; " (go { wait := p.1, fixed := p.2 } as)
+        | st :: rest => let (g1, o) := reactAll g st; record g1 o :: go g1 rest
+      String.intercalate " ; " (go { wait := p.1, fixed := p.2 } steps)
     | _, _ => "bad-op"
   | _ => "bad-op"
 
